@@ -22,7 +22,7 @@ FLOORS = {'quick': {'span': 500, 'basis': 500, 'basis_one': 1000, 'ders': 500, '
                     'normalize': 50, 'check_reject': 50, 'hook:find_span': 50, 'hook:basis_function': 50},
           'thorough': {'span': 5000, 'basis': 5000, 'basis_one': 10000, 'ders': 5000, 'generate': 100,
                        'normalize': 500, 'check_reject': 500}}
-MANDATORY_TAGS = ['large', 'generate:count<=degree', 'u:near-end', 'kv:unclamped', 'kv:endrep', 'kv:random', 'kv:range', 'u:end', 'u:start', 'u:knot_full', 'deg7', 'deg1']
+MANDATORY_TAGS = ['kv:tiny-range', 'large', 'generate:count<=degree', 'u:near-end', 'kv:unclamped', 'kv:endrep', 'kv:random', 'kv:range', 'u:end', 'u:start', 'u:knot_full', 'deg7', 'deg1']
 
 _CTX = [None]
 
@@ -188,7 +188,8 @@ def gen_basis_case(rng, p=None, cls=None):
     lohi = (0.0, 1.0)
     kcls = cls
     if cls == 'range':
-        lohi = rng.choice([(2.0, 5.0), (-3.0, 7.5), (10.0, 10.5), (-1e3, 1e3)])
+        # (round 8: ranges far below the absolute constants 1e-7 / 1e-8 - every knot difference there is "small")
+        lohi = rng.choice([(2.0, 5.0), (-3.0, 7.5), (10.0, 10.5), (-1e3, 1e3), (0.0, 2.0 ** -30), (5.0, 5.0 + 2.0 ** -24), (-2.0 ** -26, 2.0 ** -26)])
         kcls = 'random'
     fine = False
     if cls == 'fine':
@@ -331,6 +332,8 @@ def check_basis(case, ctx):
                      'random' if case['cls'] in ('random', 'fine') else case['cls']), 'deg%d' % p)
     if case.get('large'):
         ctx.tag('large')
+    if U[-1] - U[0] < 1e-6:
+        ctx.tag('kv:tiny-range')
     cnt = Counter(U)
     with hooks.suspended():
         spans_l, us = [], []
